@@ -8,7 +8,7 @@ SPEC = {
                    "6": "FilterFromProto result", "7": "harness re-encoding = model's repr (what MySQL hands back)",
                    "8": "extractRow / tester on the row's own values"},
     "corr_name": "Sql.Codec (valuer, scanner, unbuild, build, parse_binlog_row, tester, filter_to_proto, filter_from_proto) vs internal/fields/sql.go, sqlgen/reflect.go, livesql/marshal.go, livesql/binlog.go",
-    "coq_modules": ["Sql.Codec"],
+    "coq_modules": ["Sql.Codec", "Sql.CodecProofs"],
     "trusted_base": [
         "Coq 8.16.1 kernel and vm_compute (no native_compute); Print Assumptions: closed under the global context",
         "hand-written model coq/theories/Sql/Codec.v of internal/fields/sql.go (Valuer.Value, Scanner.Scan), sqlgen/reflect.go (unbuildStruct, BuildStruct, tester, extractRow, driverValuesEqual), livesql/binlog.go (parseBinlogRow), livesql/marshal.go, and of the parts of database/sql (convertAssign, asString, driver.Bool) and go-sql-driver/mysql (NullTime.Scan) they call; tied to the code by the correspondence check only",
